@@ -876,7 +876,7 @@ class History:
                                   'itself has stored the tile again since, yet If-Modified-Since with that date is answered 304 '
                                   '(current mtime %r, link mode %r)' % (ims, ts, self.app.link), step)
                 if status == 200 and lastmod is not None:
-                    self.copies[key].append((lastmod, body))
+                    self.copies[key].append((lastmod, data))     # the stored version the client's copy was made from
                 if ims_class in ('bad', 'oor') and status == 304 and inm != cur_etag:
                     self.fail(where + 'malformed-date-not-ignored', 'malformed If-Modified-Since %r produced 304' % (ims,), step)
                 if after[key] != pre:
